@@ -1305,6 +1305,49 @@ def rule_r8(chk, prog, reg):
                                 v_, ast.Constant) and isinstance(
                                     v_.value, int):
                             found.setdefault(k_.value, set()).add(v_.value)
+        # path-wise: "pos = 2 / pos = 3" chosen by the command, then
+        # node[pos] - the position is the value bound on that path
+        from ..cfg import enumerate_paths
+        from ..pathutil import path_subst
+        for p_ in enumerate_paths(cfg, cfg.entry, lambda x: False):
+            cmds = set()
+            for (t, pol) in p_.facts:
+                if not (pol and f'{param}.get_ident()' in t):
+                    continue
+                try:
+                    e = ast.parse(t, mode='eval').body
+                except SyntaxError:
+                    continue
+                if isinstance(e, ast.Compare) and len(e.ops) == 1 and \
+                        isinstance(e.ops[0], (ast.In, ast.Eq)) and \
+                        unparse(e.left) == f'{param}.get_ident()':
+                    try:
+                        from ..astutil import module_const
+                        v = module_const(m, e.comparators[0])
+                    except ValueError:
+                        v = None
+                    if isinstance(v, str):
+                        cmds.add(v)
+                    elif isinstance(v, (tuple, list, set, frozenset)):
+                        cmds.update(x for x in v if isinstance(x, str))
+            if not cmds:
+                continue
+            for i_, nd in enumerate(p_.nodes):
+                root = getattr(nd.ast, 'test', None) if nd.kind == 'test' \
+                    else nd.ast
+                if root is None or isinstance(root, (
+                        ast.FunctionDef, ast.If, ast.For, ast.While)):
+                    continue
+                for sub in ast.walk(root):
+                    if isinstance(sub, ast.Subscript) and isinstance(
+                            sub.value, ast.Name) and \
+                            sub.value.id == param and isinstance(
+                                sub.slice, ast.Name):
+                        sl = path_subst(p_, i_, sub.slice)
+                        if isinstance(sl, ast.Constant) and isinstance(
+                                sl.value, int):
+                            for c in cmds:
+                                found.setdefault(c, set()).add(sl.value)
         n += 1
         for cmd, pos in SORT_POS.items():
             got = found.get(cmd, set())
